@@ -6,7 +6,7 @@
     PARTIAL: the round-trip theorem parse(print c) = abs c is proved here for the stream-selector
     sub-grammar with an unbounded number of matchers; for the rest of the grammar it is established by the
     correspondence against generator-computed expectations, not by a theorem (see DESIGN.md). *)
-From LogQLV Require Import Base.Bytes Base.FloatX Model.Tables Model.Syntax Model.Parser Proofs.ParserP Proofs.PipelineP Proofs.LogRangeP Proofs.QueryP Proofs.UnwrapP Model.Lexer Proofs.LexerP Proofs.LexerTightP Proofs.LexParseP.
+From LogQLV Require Import Base.Bytes Base.FloatX Model.Tables Model.Syntax Model.Parser Proofs.ParserP Proofs.PredP Proofs.PipelineP Proofs.LogRangeP Proofs.QueryP Proofs.UnwrapP Model.Lexer Proofs.LexerP Proofs.LexerTightP Proofs.LexParseP.
 
 (** every selector {l1 op1 "v1", ..., ln opn "vn"} with any number of matchers, all four operators, any value bytes (regex
     values that compile) and any label names -- whether the lexer classifies a name as Ident or as a keyword (by, on, json,
@@ -30,8 +30,37 @@ Example selector_keyword_label :
   match parse_selector 5 {| prev := []; rest := print_selector anch (fun _ => None) cls ms |} with POk r _ => r = ms | _ => False end.
 Proof. vm_compute. reflexivity. Qed.
 
+(** label-filter predicates: string matchers, number / duration / bytes comparisons, ip() comparisons, parentheses and and / or chains in
+    the shape the grammar gives them -- `and` binds tighter than `or` (D34), chains of one operator nest to the right:
+    atom := comparison | ( predicate );  and-chain := atom | atom and and-chain;  predicate := and-chain | and-chain or predicate
+    ([wf_pred]) -- are parsed into exactly themselves, whatever the texts of the numeric literals (ntxt, dtxt, btxt), consuming exactly
+    their tokens; in particular  a and b or c  is  (a and b) or c *)
+Theorem parse_print_labelfilter_partial :
+  forall (anch : bytes -> bool) (re_names : bytes -> option (list bytes)) (ntxt : float -> bytes) (dtxt btxt : Z -> bytes)
+         (p : pred) (fuel : nat) (pv r : list token),
+  wf_pred anch p -> (psize p < fuel)%nat -> ends_pred r ->
+  parse_label_predicate fuel {| prev := pv; rest := print_pred anch re_names ntxt dtxt btxt p ++ r |} =
+    POk p {| prev := rev (print_pred anch re_names ntxt dtxt btxt p) ++ pv; rest := r |}.
+Proof. exact pred_print_lemma. Qed.
+Print Assumptions parse_print_labelfilter_partial.
+
+(** non-vacuity:  a = "1" and ( n > 5 or d <= 5s ) and ip == ip("10.0.0.0/8") or b !~ "x"  is  (a and ((n or d)) and ip) or b *)
+Example labelfilter_example :
+  let anch := fun _ : bytes => true in
+  let rn := fun _ : bytes => Some (@nil bytes) in
+  let nt := fun _ : float => ["5"%byte] in let dt := fun _ : Z => ["5"%byte; "s"%byte] in let bt := fun _ : Z => ["1"%byte] in
+  let a := PMatch {| m_label := ["a"%byte]; m_op := OpEq; m_value := ["1"%byte] |} in
+  let n := PNum ["n"%byte] OpGt 5%float in let d := PDur ["d"%byte] OpLte 5000000000 in
+  let i := PIP ["i"%byte] OpEq ["1"%byte] in
+  let b := PMatch {| m_label := ["b"%byte]; m_op := OpNotRe; m_value := ["x"%byte] |} in
+  let p := PBin (PBin a OpAnd (PBin (PParen (PBin n OpOr d)) OpAnd i)) OpOr b in
+  wf_pred anch p /\
+  match parse_label_predicate 20 {| prev := []; rest := print_pred anch rn nt dt bt p |} with POk q _ => q = p | _ => False end.
+Proof. split; [cbn; repeat split; try reflexivity; left; reflexivity|vm_compute; reflexivity]. Qed.
+
 (** pipelines over the stage fragment {line filters with a string or ip(), pattern, line_format, unpack, decolorize, drop / keep
-    with label names, distinct, json / logfmt with or without a label list, label_format with renames and templates}: any
+    with label names, distinct, json / logfmt with or without a label list, label_format with renames and templates, label filters
+    (the predicates of parse_print_labelfilter_partial, printed with empty texts for their numeric literals)}: any
     number of stages in any order is parsed into exactly those stages in order, consuming exactly their tokens.  [chain_ok]
     asks each stage to be well-formed (regex filters compile, name lists non-empty, label_format targets pairwise distinct)
     and to be followed by something it cannot absorb: a drop / keep list must not be followed by `!=` / `!~` (the grammar
@@ -334,7 +363,7 @@ Proof.
   all: try (left; discriminate).
 Qed.
 
-(** non-vacuity for layouts WITHOUT white space: the texts  {app="x",env=~"p"}|="err"|json  and
+(** non-vacuity for layouts WITHOUT white space: the texts  {app="x",env=~"p"}|="err"|json|a="1"and b!="2"or c==ip("9")  and
     sum by(a)(rate({app="x"}[5m]))  (one blank, after sum) satisfy the hypotheses and denote their trees *)
 Example tight_text_example :
   let anch := fun _ : bytes => true in
@@ -343,15 +372,20 @@ Example tight_text_example :
   let dur := fun t : bytes => if bytes_eqb t m5 then Some 300000000000 else None in
   let app := ["a"%byte; "p"%byte; "p"%byte] in let env := ["e"%byte; "n"%byte; "v"%byte] in
   let sel2 := [ {| m_label := app; m_op := OpEq; m_value := ["x"%byte] |}; {| m_label := env; m_op := OpRe; m_value := ["p"%byte] |} ] in
-  let sts := [SLine OpEq ["e"%byte; "r"%byte; "r"%byte] false; SJson [] []] in
+  let fa := PMatch {| m_label := ["a"%byte]; m_op := OpEq; m_value := ["1"%byte] |} in
+  let fb := PMatch {| m_label := ["b"%byte]; m_op := OpNotEq; m_value := ["2"%byte] |} in
+  let fc := PIP ["c"%byte] OpEq ["9"%byte] in
+  let sts := [SLine OpEq ["e"%byte; "r"%byte; "r"%byte] false; SJson [] []; SLabelFilter (PBin (PBin fa OpAnd fb) OpOr fc)] in
   let toks1 := print_selector anch rn kw_cls sel2 ++ print_stages anch rn sts in
-  let l1 := map (fun t => (ltok_of t, @nil byte)) toks1 in
+  let l1 := map (fun t => (ltok_of t, if ttype_eqb (ty t) TAnd || ttype_eqb (ty t) TOr then [" "%byte] else
+                                       match toks1 with _ => @nil byte end)) toks1 in
   let sel1 := [ {| m_label := app; m_op := OpEq; m_value := ["x"%byte] |} ] in
   let g := {| g_labels := [["a"%byte]]; g_without := false |} in
   let toks2 := print_vec_agg anch rn kw_cls VectorOpSum g RangeOpRate sel1 [] m5 300000000000 None in
   let l2 := map (fun t => (ltok_of t, if ttype_eqb (ty t) TSum then [" "%byte] else [])) toks2 in
   (seps_ok l1 /\
-   layout l1 = [ "{"; "a"; "p"; "p"; "="; """"; "x"; """"; ","; "e"; "n"; "v"; "="; "~"; """"; "p"; """"; "}"; "|"; "="; """"; "e"; "r"; "r"; """"; "|"; "j"; "s"; "o"; "n" ]%byte /\
+   firstn 30 (layout l1) = [ "{"; "a"; "p"; "p"; "="; """"; "x"; """"; ","; "e"; "n"; "v"; "="; "~"; """"; "p"; """"; "}"; "|"; "="; """"; "e"; "r"; "r"; """"; "|"; "j"; "s"; "o"; "n" ]%byte /\
+   skipn 30 (layout l1) = [ "|"; "a"; "="; """"; "1"; """"; "a"; "n"; "d"; " "; "b"; "!"; "="; """"; "2"; """"; "o"; "r"; " "; "c"; "="; "="; "i"; "p"; "("; """"; "9"; """"; ")" ]%byte /\
    match lex (layout l1) with LexOk lexed => parse_tokens (map (tok_of anch rn dur) lexed) = Parsed (ELog sel2 sts) | _ => False end) /\
   (seps_ok l2 /\
    layout l2 = [ "s"; "u"; "m"; " "; "b"; "y"; "("; "a"; ")"; "("; "r"; "a"; "t"; "e"; "("; "{"; "a"; "p"; "p"; "="; """"; "x"; """"; "}"; "["; "5"; "m"; "]"; ")"; ")" ]%byte /\
@@ -359,9 +393,9 @@ Example tight_text_example :
    | LexOk lexed => parse_tokens (map (tok_of anch rn dur) lexed) = Parsed (EVecAgg VectorOpSum (range_expr RangeOpRate sel1 [] 300000000000 None) None (Some g))
    | _ => False end).
 Proof.
-  cbv zeta. split; (split; [|split; vm_compute; reflexivity]).
-  - vm_compute. repeat split; try reflexivity; intros _; repeat split; reflexivity.
-  - vm_compute. repeat split; try reflexivity; try discriminate; intros _; repeat split; reflexivity.
+  cbv zeta. split.
+  - split; [|split; [|split]; vm_compute; reflexivity]. vm_compute. repeat split; try reflexivity; try discriminate; intros _; repeat split; reflexivity.
+  - split; [|split; vm_compute; reflexivity]. vm_compute. repeat split; try reflexivity; try discriminate; intros _; repeat split; reflexivity.
 Qed.
 
 (** static rules *)
